@@ -45,6 +45,10 @@ def body_src(body, ind="    ") -> list[str]:
             out += [f"{ind}while c:"] + sub(0) + [f"{ind}else:"] + sub(1)
         elif k == "cond3":
             out.append(f"{ind}return {LEAF_SRC[b[0][0]['v'] - 1]} if c else ({LEAF_SRC[b[1][0]['v'] - 1]} if d else {LEAF_SRC[b[2][0]['v'] - 1]})")
+        elif k == "cond3l":
+            out.append(f"{ind}return ({LEAF_SRC[b[0][0]['v'] - 1]} if c else {LEAF_SRC[b[1][0]['v'] - 1]}) if d else {LEAF_SRC[b[2][0]['v'] - 1]}")
+        elif k == "cond4":
+            out.append(f"{ind}return ({LEAF_SRC[b[0][0]['v'] - 1]} if c else {LEAF_SRC[b[1][0]['v'] - 1]}) if d else ({LEAF_SRC[b[2][0]['v'] - 1]} if c else {LEAF_SRC[b[3][0]['v'] - 1]})")
         elif k == "try":
             out += [f"{ind}try:"] + sub(0) + [f"{ind}except Exception:"] + sub(1)
         elif k == "for":
